@@ -23,6 +23,7 @@ SPECS = {
     "classifier_rule": ("gen_classifier_rule", ["matid/classification/classifier.py"], ["MatidGen/ClassifierRule.lean"]),
     "proto_rule": ("gen_proto_rule", ["matid/core/periodicfinder.py"], ["MatidGen/ProtoRule.lean"]),
     "region_rule": ("gen_region_rule", ["matid/core/periodicfinder.py"], ["MatidGen/RegionRule.lean"]),
+    "assemble_rule": ("gen_assemble_rule", ["matid/core/periodicfinder.py"], ["MatidGen/AssembleRule.lean"]),
     "dim_rule": ("gen_dim_rule", ["matid/geometry/geometry.py", "matid/clustering/sbc.py"], ["MatidGen/DimRule.lean"]),
 }
 
